@@ -1754,6 +1754,13 @@ func (trd *tarReadData) tarReadAll(rs io.ReadSeeker) error {
 						return err
 					}
 				}
+				if header.Typeflag == tar.TypeSymlink && !filepath.IsAbs(header.Linkname) {
+					// a symlink target is relative to the directory holding the link
+					target = filepath.Join(filepath.Dir(name), header.Linkname)
+				} else if header.Typeflag == tar.TypeLink {
+					// a hard link target is named from the root of the tar
+					target = header.Linkname
+				}
 				target = filepath.ToSlash(filepath.Clean("/" + target)[1:])
 				// track and set handleAdded if an existing handler points to the target
 				if trd.linkAdd(name, target) && !trd.handleAdded {
